@@ -57,6 +57,9 @@ func (s *swamp) PatchExpired(howMany int32, ops []msgpackpatch.Op, condition *ms
 	// expiration-time indexes are built before we try to select.
 	s.buildBeacon(s.expirationTimeBeaconASC, s.expirationTimeBeaconDESC, BeaconTypeExpirationTime)
 
+	if capPredicate != nil {
+		capMax = s.capMaxWithinIndex(BeaconTypeExpirationTime, capPredicate, capMax)
+	}
 	selected, capReached := s.expirationTimeBeaconASC.SelectExpiredForPatchWithCap(int(howMany), selectionPredicate, capPredicate, int(capMax))
 	if len(selected) == 0 {
 		return nil, capReached, nil
@@ -193,4 +196,30 @@ func expirationTimeAsTime(expirationTime int64) time.Time {
 		return time.Time{}
 	}
 	return time.Unix(0, expirationTime).UTC()
+}
+
+// capMaxWithinIndex returns the part of a Cap's MaxMatching that is left for
+// the records of one ordered index. The index-level selection (ShiftMatching,
+// SelectExpiredForPatchWithCap) counts the records matching Cap.Filter among
+// the members of the index it walks, but a time-based index only holds the
+// records that carry its timestamp: a matching record without ExpiredAt (or
+// CreatedAt / UpdatedAt) is invisible to that count, and the quota would be
+// overshot by the number of such records. They are counted here, over the
+// whole swamp, and taken off the maximum. The caller holds capMu.
+func (s *swamp) capMaxWithinIndex(beaconType BeaconType, capPredicate func(treasure.Treasure) bool, capMax int32) int32 {
+	var inIndex func(t treasure.Treasure) bool
+	switch beaconType {
+	case BeaconTypeExpirationTime:
+		inIndex = func(t treasure.Treasure) bool { return t.GetExpirationTime() != 0 }
+	case BeaconTypeCreationTime:
+		inIndex = func(t treasure.Treasure) bool { return t.GetCreatedAt() != 0 }
+	case BeaconTypeUpdateTime:
+		inIndex = func(t treasure.Treasure) bool { return t.GetModifiedAt() != 0 }
+	default:
+		return capMax // key and value indexes hold every record
+	}
+	outside := s.beaconKey.CountMatching(func(t treasure.Treasure) bool {
+		return !inIndex(t) && capPredicate(t)
+	})
+	return capMax - int32(outside)
 }
